@@ -2,10 +2,12 @@
 from . import common as C
 from . import suite, execsuite, values, srcvalues
 from .propbase import *
+from . import basesuites
 
 
 def run(chk):
     proved = setup(chk, "C03")
+    basesuites.run_f64(chk, 1500 if chk.tier == "quick" else 20000)
     rng = rng_for(chk, 3)
     quick = chk.tier == "quick"
     # (1) value-level tables, exhaustive over U x U through the public Val API
